@@ -1288,7 +1288,8 @@ func c16r4(c *Ctx) {
 		if len(hashes) > 0 {
 			o := c.Ob(fn, "spec-hash:derivation", nil, "the spec hash is pkg.GetSpecHash(modifier), optionally extended by a suffix")
 			var pr []string
-			for _, v := range p.possibleValues(hashes[0]) {
+			// (the computation may live in an extracted helper: look through its results)
+			for _, v := range p.possibleValuesX(hashes[0]) {
 				if !c16IsSpecHash(v) {
 					if b, ok := v.(*ssa.BinOp); ok && b.Op == token.ADD && (c16IsSpecHash(b.X) || c16IsSpecHash(b.Y)) {
 						continue
